@@ -59,7 +59,72 @@ def _csqrt(e):
     """sqrt with the radicand in canonical (expanded, common factors pulled out) form"""
     if e.is_number:
         return sp.sqrt(e)
+    if IDEAL["G"] is not None:
+        e = reduce_mod_ideal(e)
+        if e.is_number:
+            return sp.sqrt(e)
+    if any(a.is_Pow and a.exp.is_negative for a in sp.preorder_traversal(e)):
+        e = sp.cancel(sp.together(e))          # rational radicand: one reduced fraction
+        if e.is_number:
+            return sp.sqrt(e)
+        num, den = sp.fraction(e)
+        return sp.sqrt(sp.factor_terms(sp.expand(num)) / sp.factor_terms(sp.expand(den)))
     return sp.sqrt(sp.factor_terms(sp.expand(e)))
+
+
+def _sign(e):
+    # sympy's evaluation of sign()/Abs() queries assumptions recursively, which is very slow on large terms
+    if e.is_Atom or e.is_number or len(str(e)) < 200:
+        return sp.sign(e)
+    return sp.sign(e, evaluate=False)
+
+
+IDEAL = {"G": None, "syms": ()}     # Groebner basis of polynomial relations among state symbols (set by contracts)
+
+
+def _reduce_poly(e):
+    G, syms = IDEAL["G"], IDEAL["syms"]
+    groups = {}
+    for term in sp.Add.make_args(sp.expand(e)):
+        indep, dep = term.as_independent(*syms, as_Add=False)
+        groups[indep] = groups.get(indep, 0) + dep
+    out = sp.Integer(0)
+    for indep, dep in groups.items():
+        if not dep.is_polynomial(*syms):
+            out += indep * dep
+            continue
+        r = G.reduce(dep)[1]
+        if r != 0:
+            out += r * indep
+    return out
+
+
+def reduce_mod_ideal(e):
+    """normal form modulo the state's polynomial relations (e.g. those defining SO(3)): one fraction,
+    numerator and denominator expanded, grouped by the part free of the ideal's symbols, every coefficient
+    polynomial reduced modulo the Groebner basis, common factors cancelled"""
+    G, syms = IDEAL["G"], IDEAL["syms"]
+    if G is None or not (e.free_symbols & set(syms)):
+        return e
+    from .oblig import sums_to_symbols, _SUM_SYMS
+    e1 = sums_to_symbols(e)
+    num, den = sp.fraction(sp.together(e1))
+    num, den = _reduce_poly(num), _reduce_poly(den)
+    if den == 0:
+        return e
+    if den.is_number:
+        out = num / den
+    else:
+        out = sp.cancel(num / den)
+    back = {v: k for k, v in _SUM_SYMS.items()}
+    return out.xreplace(back) if out.free_symbols & set(back) else out
+
+
+def _simp(v):
+    """algebraic normalisation of a contraction result modulo the state's polynomial relations"""
+    if not isinstance(v, Sym) or IDEAL["G"] is None:
+        return v
+    return wrap(reduce_mod_ideal(v.e))
 
 
 def _seq_has_symseq(x):
@@ -253,7 +318,7 @@ class _NP:
     absolute = abs
 
     def sign(self, x):
-        return _ew(_sfun(sp.sign), x)
+        return _ew(_sfun(_sign), x)
 
     def sin(self, x):
         return _ew(_sfun(sp.sin), x)
@@ -391,6 +456,12 @@ class _NP:
 
     # products ------------------------------------------------------------------------
     def dot(self, a, b):
+        r = self._dot(a, b)
+        if isinstance(r, SymArr):
+            return SymArr(r.axes, _map(_simp, r.inner), r.guard)
+        return r
+
+    def _dot(self, a, b):
         a, b = _lift(a), _lift(b)
         if not isinstance(a, SymArr) and not isinstance(b, SymArr):
             return _scalarize(_np.dot(a, b))
